@@ -22,8 +22,8 @@ def run(pid, tier):
     base = pool[0]
     na, nb = (60, 45) if tier == 'quick' else (250, 160)
     As = [[m] for m in rng.sample(msgs, min(na, len(msgs)))] + SPECIAL_A
-    rel = [m for m in msgs if bytes(m).startswith((b'B?', b'ECHO? 2', b'PART?', b'TXT?'))]
-    Bs = rng.sample(msgs, min(nb, len(msgs))) + rel[:12]
+    rel = [m for m in msgs if bytes(m).startswith((b'B?', b'ECHO? 2', b'PART?', b'TXT?', b'NONE?'))]
+    Bs = rng.sample(msgs, min(nb, len(msgs))) + rel[:18]
     scen, refidx = [], []
     alone = {}
     for b in Bs:
